@@ -16,7 +16,8 @@ RULE = (
     "resolution modes); every response is compared order-sensitively with the reference executor "
     "R-EXEC and earlier requests are re-issued later in the history. "
     "A third of the requests hand over a pre-parsed Document that is reused by re-issues and must "
-    "print the same after every execution; internal enum values include python Enum members; type "
+    "print the same after every execution; a quarter of the requests re-use an earlier document of the "
+    "history (the same Document object when pre-parsed) with a fresh variable payload and any of its operations; internal enum values include python Enum members; type "
     "resolvers written as functions raise the resolver error for some objects (the field being "
     "completed is nulled); resolver errors may lack a message or be one shared instance.  "
     "Non-trivial = distinct (schema, "
@@ -113,12 +114,24 @@ def run(ctx):
                                   {"schema_sdl": case.sdl, "document": req[1], "variables": req[3]},
                                   "first=%r later=%r" % (earlier, again))
                 continue
-            req = exec_mon.gen_request(rng, case)
+            if history and rng.random() < 0.25:
+                # the same document (the same Document object when it was handed over pre-parsed) with a fresh
+                # variable payload and possibly another of its operations: anything remembered per document or
+                # per selection node must not carry over decisions that depended on the variables
+                (doc0, text0, _op0, _vars0), _ex, _out = rng.choice(history)
+                op1 = rng.choice(doc0.operations)
+                from ..gen import opgen as _opgen
+
+                req = (doc0, text0, op1, _opgen.variable_values(rng, case.sg, op1, nested=doc0.nested_vars))
+                ctx.count("same_document_other_variables")
+            else:
+                req = exec_mon.gen_request(rng, case)
             executor = "blocking" if rng.random() < 0.6 else "generic"
             out = one_request(ctx, rng, case, req, executor)
             history.append((req, executor, out))
     ctx.require("ref:ok", 100)
     ctx.require("reissued", 20)
+    ctx.require("same_document_other_variables", 20)
     ctx.require("feature:fragment-spread", 10)
     ctx.require("feature:merged-key", 5)
     ctx.require("feature:null-in-non-null", 5)
